@@ -583,16 +583,111 @@ fn scenarios(tier: Tier) -> Vec<Scenario> {
     v
 }
 
+// ------------------------------------------------------------------ (B2) windows of tens of thousands of messages
+const NBIG: usize = 25_000;
+fn run_large_window(d: &mut Driver, file: &str, is_stream: bool, window: (usize, usize), after_load: bool) -> Result<Vec<(String, String, String)>, DriverErr> {
+    let mut viol: Vec<(String, String, String)> = vec![];
+    let step = |d: &mut Driver, l: &str, viol: &mut Vec<(String, String, String)>| -> Result<Value, DriverErr> {
+        let r = d.step(l, 120)?;
+        if let Some(p) = r["panic"].as_str() {
+            let (loc, msg) = p.split_once('|').unwrap_or((p, ""));
+            viol.push(("panic".into(), loc.trim_start_matches("/repo/").to_string(), format!("'{l}' panicked: {msg}")));
+        }
+        Ok(r)
+    };
+    d.step("RESET", 120)?;
+    step(d, &format!(r#"C open {{"files":["{file}"]}}"#), &mut viol)?;
+    if after_load {
+        step(d, "T inf", &mut viol)?;
+        step(d, "T 0", &mut viol)?;
+    }
+    let r = step(d, &format!(r#"C {} {{"window":[{},{}],"binary":true}}"#, if is_stream { "stream" } else { "query" }, window.0, window.1), &mut viol)?;
+    let reply = r["frames"][0]["t"].as_str().unwrap_or("").to_string();
+    let id: u64 = match reply.split("\"id\":").nth(1).and_then(|x| x.trim_start().chars().take_while(|c| c.is_ascii_digit()).collect::<String>().parse().ok()) {
+        Some(i) if reply.starts_with("ok:") => i,
+        _ => {
+            viol.push(("stream_rejected".into(), "large_window".into(), reply));
+            return Ok(viol);
+        }
+    };
+    let mut got: Vec<u64> = vec![];
+    let mut ended_at: Option<usize> = None;
+    // (no idle round before the file is loaded: a query of a collect-all session ends in the first round without new
+    // messages by design)
+    for t in ["T 7000", "T inf", "T 0", "T 0", "T 0"] {
+        let r = step(d, t, &mut viol)?;
+        for (fid, m) in collect_frames(r["frames"].as_array().map(|a| a.as_slice()).unwrap_or(&[])) {
+            if fid != id {
+                viol.push(("frame_before_announce".into(), "large_window".into(), format!("frame for id {fid}, announced {id}")));
+            } else if m == json!("END") {
+                ended_at.get_or_insert(got.len());
+            } else {
+                got.push(m["index"].as_u64().unwrap_or(u64::MAX));
+            }
+        }
+    }
+    let want: Vec<u64> = (window.0.min(NBIG) as u64..window.1.min(NBIG) as u64).collect();
+    if got != want {
+        let first_bad = got.iter().zip(want.iter()).position(|(a, b)| a != b);
+        viol.push(("window_content".into(), "large_window".into(), format!("{} messages delivered for window [{},{}) of a {NBIG}-message log, expected {} (first differing position {:?})", got.len(), window.0, window.1, want.len(), first_bad)));
+    }
+    match (is_stream, ended_at) {
+        (false, None) => viol.push(("query_never_ended".into(), "large_window".into(), "no end-of-query marker".into())),
+        (false, Some(k)) if k != want.len() => viol.push(("data_after_end_marker".into(), "large_window".into(), format!("end-of-query marker after {k} of {} messages", want.len()))),
+        _ => {}
+    }
+    let _ = step(d, "C close", &mut viol)?;
+    Ok(viol)
+}
+fn large_window_family(ctx: &mut Ctx, dir: &str) {
+    let file = format!("{dir}/log25k.dlt");
+    std::fs::write(&file, crate::rem::gen_big_log(NBIG)).expect("write log");
+    let windows = [(0usize, 30_000usize), (5_000, 24_000), (0, 10_001), (12_000, 25_000)];
+    ctx.begin_family("large_window", &format!("{NBIG}-message log x stream/query x {} windows of up to {NBIG} messages x {{requested before the file is loaded, after it is loaded}}", windows.len()));
+    let mut d = Driver::spawn();
+    let mut done = true;
+    'o: for is_stream in [false, true] {
+        for w in windows {
+            for after_load in [true, false] {
+                ctx.mine();
+                let cj = || json!({"family": "large_window", "is_stream": is_stream, "window": [w.0, w.1], "after_load": after_load});
+                match run_large_window(&mut d, &file, is_stream, w, after_load) {
+                    Err(e) => {
+                        d.kill();
+                        d = Driver::spawn();
+                        ctx.violation(if format!("{e:?}").contains("Hang") { "hang" } else { "driver_died" }, "large_window", cj, format!("{e:?}"));
+                    }
+                    Ok(v) => {
+                        for (c, dd, detail) in v {
+                            ctx.violation(&c, &dd, cj, detail);
+                        }
+                    }
+                }
+                ctx.landmark("server_large_window");
+                ctx.transitions(9);
+                ctx.eval(true);
+                ctx.sample(cj);
+                if ctx.out_of_time() {
+                    done = false;
+                    break 'o;
+                }
+            }
+        }
+    }
+    d.kill();
+    ctx.end_family(done);
+}
+
 impl Prop for C16 {
     fn meta(&self, _t: Tier) -> Meta {
         Meta {
             id: "C16",
             level: "model_checking",
-            rule: "(A) library: for every log of N <= 6 (thorough 8) messages with every match pattern (2^N) x stream/query x window end 0..N+1 x max_chunk_size {1,2,3,inf} x every composition of N into arrival batches (x one window extension after every tick for queries) the real process_stream_new_msgs is called the way the server loop calls it; after every tick filtered_msgs must be strictly increasing and equal the matching positions below the progress marker (queries: the first 'window end' of them, marker never beyond an uncollected match), and complete after the final batch plus idle ticks. (B) server, through the cfg(adlt_verif) driver on the real handlers: 8 filter sets (incl. one with two event filters and one with disabled positive and event filters) x 5 windows x stream/query x binary/text x every composition of the 6-message log into arrival ticks; the same for one-pass sessions (collect = one_pass_streams, resume) with an idle server round after every tick; one window change after every tick x 3 new windows, also followed at once by the creation of a second stream on the same connection (its id must be fresh and each stream gets exactly its own window); search paging (8 stream filters x 8 search filters x page sizes {1,2,N} x start 0..2, following next_search_idx); index and time lookups for every message, sorted and unsorted. Oracle: frames for the announced id are exactly positions [start,end) of the filtered log with the file's index/times/ids/counters/payload text, none for unannounced or superseded ids, end-of-query marker last, new id after a window change gets exactly the new window, union of search pages = matching stream positions without duplicates, lookups answered ok: return the first stream position not before the request.".into(),
+            rule: "(A) library: for every log of N <= 6 (thorough 8) messages with every match pattern (2^N) x stream/query x window end 0..N+1 x max_chunk_size {1,2,3,inf} x every composition of N into arrival batches (x one window extension after every tick for queries) the real process_stream_new_msgs is called the way the server loop calls it; after every tick filtered_msgs must be strictly increasing and equal the matching positions below the progress marker (queries: the first 'window end' of them, marker never beyond an uncollected match), and complete after the final batch plus idle ticks. (B) server, through the cfg(adlt_verif) driver on the real handlers: 8 filter sets (incl. one with two event filters and one with disabled positive and event filters) x 5 windows x stream/query x binary/text x every composition of the 6-message log into arrival ticks; the same for one-pass sessions (collect = one_pass_streams, resume) with an idle server round after every tick; one window change after every tick x 3 new windows, also followed at once by the creation of a second stream on the same connection (its id must be fresh and each stream gets exactly its own window); search paging (8 stream filters x 8 search filters x page sizes {1,2,N} x start 0..2, following next_search_idx); index and time lookups for every message, sorted and unsorted. Oracle: frames for the announced id are exactly positions [start,end) of the filtered log with the file's index/times/ids/counters/payload text, none for unannounced or superseded ids, end-of-query marker last, new id after a window change gets exactly the new window, union of search pages = matching stream positions without duplicates, lookups answered ok: return the first stream position not before the request. (B2) a 25 000-message log x stream/query x 4 windows of up to 25 000 messages x requested before / after the file is loaded: exactly the window's indices in order, end marker last.".into(),
             assumptions: vec!["server level uses one generated 6-message log (two ECUs, one lifecycle each)".into(), "message-arrival batching is modelled by explicit ticks of the driver (receive budget)".into()],
             budget_s: (150, 1500),
             workers: 1,
-            required_landmarks: vec!["chunk_limit_active", "query_more_matches_than_window", "window_extended", "server_scenario", "server_window_change", "server_search", "server_lookup"],
+            required_landmarks: vec!["chunk_limit_active", "query_more_matches_than_window", "window_extended", "server_scenario", "server_window_change", "server_search", "server_lookup", "server_large_window"],
         }
     }
     fn prepare(&self, _t: Tier) -> Result<(), String> {
@@ -683,6 +778,7 @@ impl Prop for C16 {
             }
         }
         ctx.end_family(!timed_out);
+        large_window_family(ctx, &dir);
         let _ = std::fs::remove_dir_all(&dir);
         let lib_sum = lib_thread.join().expect("lib level thread");
         ctx.sum.merge(lib_sum);
@@ -695,6 +791,28 @@ impl Prop for C16 {
             let ext = case["extend_at_tick_to"].as_array().map(|a| (u(&a[0]), u(&a[1])));
             let chunk = case["max_chunk"].as_u64().map(|x| x as usize).unwrap_or(usize::MAX);
             lib_case(ctx, u(&case["n"]), case["match_pattern"].as_u64().unwrap() as u32, case["is_stream"].as_bool().unwrap(), u(&case["window_end"]), chunk, &batches, ext);
+            return;
+        }
+        if case["family"] == "large_window" {
+            if build_adlt_bin().is_err() {
+                return;
+            }
+            let dir = scratch_dir();
+            let file = format!("{dir}/log25k.dlt");
+            std::fs::write(&file, crate::rem::gen_big_log(NBIG)).expect("write log");
+            let mut d = Driver::spawn();
+            let w = (case["window"][0].as_u64().unwrap_or(0) as usize, case["window"][1].as_u64().unwrap_or(0) as usize);
+            match run_large_window(&mut d, &file, case["is_stream"].as_bool().unwrap_or(false), w, case["after_load"].as_bool().unwrap_or(true)) {
+                Err(e) => ctx.violation("driver_died", "large_window", || case.clone(), format!("{e:?}")),
+                Ok(v) => {
+                    for (c, dd, detail) in v {
+                        ctx.violation(&c, &dd, || case.clone(), detail);
+                    }
+                }
+            }
+            d.kill();
+            let _ = std::fs::remove_dir_all(&dir);
+            ctx.eval(true);
             return;
         }
         replay_scenario(case, ctx);
